@@ -615,6 +615,7 @@ func (c *vSendConn) OpenStream(ctx context.Context) (Stream, error) {
 	s := &vMemStream{duplex: true}
 	if len(c.streams) == 0 {
 		s.buf = vSenderAcks
+		s.stall = vSenderPeerSilent
 	}
 	c.streams = append(c.streams, s)
 	return s, nil
@@ -626,11 +627,21 @@ func (c *vSendConn) RemoteAddr() net.Addr { return nil }
 func (c *vSendConn) Close() error         { return nil }
 
 var vSenderAcks []byte
+var vSenderPeerSilent bool
 
-func H_C02_sender()      { vC02Sender([]int{0, 5}) }
-func H_C02_sender_deep() { vC02Sender([]int{0, 1, 4, 5, 8}) }
+func H_C02_sender()        { vC02Sender([]int{0, 5}, false) }
+func H_C02_sender_deep()   { vC02Sender([]int{0, 1, 4, 5, 8}, false) }
+func H_C02_sender_resume() { vC02Sender([]int{5}, true) }
 
-func vC02Sender(sizes []int) {
+// H_C02_sender_cancel: the receiver never confirms and the caller cancels at some moment.
+func H_C02_sender_cancel() {
+	vC02OnlyUnconfirmed = true
+	vC02Sender([]int{5}, vBool("resumeOn"))
+}
+
+var vC02OnlyUnconfirmed bool
+
+func vC02Sender(sizes []int, resume bool) {
 	size := sizes[vChoice("sizeIdx", len(sizes))]
 	src := vBytes("src", size)
 	dir := vTempDir()
@@ -638,8 +649,12 @@ func vC02Sender(sizes []int) {
 	item := manifest.FileItem{RelPath: "f", Size: int64(size), ID: "id"}
 	m := manifest.Manifest{Root: "src", Items: []manifest.FileItem{item}, TotalBytes: int64(size), FileCount: 1}
 	key := fileKeyForItem(item)
-	ack := vChoice("ack", 3)
-	vTag([]string{"ack=ok", "ack=failed", "ack=none"}[ack])
+	ack := 3 // a silent receiver, only with a caller that may cancel
+	if !vC02OnlyUnconfirmed {
+		ack = vChoice("ack", 3)
+	}
+	vSenderPeerSilent = ack == 3
+	vTag([]string{"ack=ok", "ack=failed", "ack=none", "ack=silent"}[ack])
 	acks := &vMemStream{}
 	switch ack {
 	case 0:
@@ -647,13 +662,20 @@ func vC02Sender(sizes []int) {
 	case 1:
 		_ = writeFileDone(acks, FileDone{StreamID: key, OK: false, ErrMsg: "x"})
 	}
+	if resume && vBool("reportArrives") {
+		// the receiver's answer to the resume request: nothing present yet
+		pre := &vMemStream{}
+		_ = writeFileResumeInfo(pre, FileResumeInfo{FileID: "id", StreamID: key, TotalChunks: uint32((size + 3) / 4), LastVerifiedChunk: uint32((size + 3) / 4)})
+		acks.buf = append(pre.buf, acks.buf...)
+		vTag("report")
+	}
 	vSenderAcks = acks.buf
 	conn := &vSendConn{}
-	cancellable := vBool("callerMayCancel")
+	cancellable := vC02OnlyUnconfirmed // only the cancel harness (canonical schedule) has a cancellable caller
 	if cancellable {
 		vTag("cancel")
 	}
-	err := SendManifestMultiStream(vContext("ctx", cancellable), conn, dir+"/src", m, Options{ChunkSize: 4, ParallelFiles: 1})
+	err := SendManifestMultiStream(vContext("ctx", cancellable), conn, dir+"/src", m, Options{ChunkSize: 4, ParallelFiles: 1, Resume: resume})
 	if err != nil {
 		vCover("C02 sender: reports failure")
 		return
